@@ -90,6 +90,12 @@ CLAIMED["C04"] = (
     "Trusted: numpy, the synthetic CCD fixture, z3 as case-split driver (the conversion layer is numpy-vectorised: apart from the model arithmetic everything is executed concretely per path, class E). Assumptions: adjacent canonical residues carry exactly the implicit peptide bond; inter-residue bond types limited to what struct_conn expresses. Outside: real CCD content, > 6 atoms, float coordinates beyond exactly representable menu values, assemblies.",
     "DESIGN.md §4 C04")
 
+CLAIMED["C18"] = (
+    "KX-pyre: the SDF metadata key regexes are read from the live class, translated to z3 regexes and the round-trip of every admitted name is decided in z3's string theory; MOL/SDF/RDKit round trips by solver-driven case split on menus",
+    "Bounded model checking. Key grammar (S): every ASCII name of length <= 6 (12) admitted by Metadata.Key serialises to a single whitespace-free token that the component grammar maps back to the same name (counterexamples are replayed through Metadata.serialize/deserialize). E-class: molecules of 1..3 atoms with boundary coordinates, charges 0..15 of both signs, every bond type the CTAB tables express, V2000/V3000/auto, MOL and multi-record SDF with header and multi-part metadata; atom/bond counts around the 999 limit (V2000 only when counts fit; fixed-width lines); RDKit bridge with 1..3 models as conformers.",
+    "Trusted: pyre translation (validated against Python re per run), z3 string solver, numpy; RDKit's C++ is a black box (only the bridge's bookkeeping is exercised). Outside: molecules with more than 3 atoms except the count-limit cases, non-ASCII header/metadata text, keys with several components symbolically (covered by one concrete multi-part key).",
+    "DESIGN.md §4 C18")
+
 NOT_APPLICABLE = {
     "C15": "float results of numpy/LAPACK (linalg solves, trigonometry, argmin over float images): no integer/string logic in front of the C boundary that a solver could reason about; an abstraction over the reals would verify a model of numpy, not the code (DESIGN §6)",
     "C16": "optimality/properness come from np.linalg.svd/det (LAPACK behind FFI) on float32 data; no encodable source; z3 terms cannot pass astype(float32) (DESIGN §6)",
